@@ -25,8 +25,6 @@ T = TypeVar('T')
 class ThreadLocal(Generic[T]):
     """This type offers the ability to store a value based on the thread that accessed the value."""
 
-    __store = {}
-
     def __init__(self, default_provider: Callable[[], T] = lambda: None):
         """
         Create a new ThreadLocal value.
@@ -34,6 +32,7 @@ class ThreadLocal(Generic[T]):
         :param default_provider: a provider that will produce a default value
         """
         self.__default_provider = default_provider
+        self.__store = {}
 
     def get(self) -> T:
         """
